@@ -13,6 +13,7 @@ from gambatools.dfa import State, Symbol as nfaSymbol, DFA
 from gambatools.nfa import NFA
 from gambatools.identifier_generator import IdentifierGenerator
 from gambatools.regexp import Regexp
+from gambatools import _verif
 
 
 def regexp_size(r: Regexp) -> int:
@@ -251,6 +252,7 @@ def gnfa_minimize(G: GNFA) -> None:
     q_accept: State = G.q_accept
 
     for q_rip in Q - {q_start, q_accept}:
+        if _verif.ON: _verif.emit('rip', q=q_rip)
         Q.remove(q_rip)
         R2 = delta[q_rip, q_rip]
         for q_i in Q - {q_accept}:
